@@ -387,6 +387,15 @@ class Run:
         for kk, v in list(fp.fired.items()) + list(s.core.fired.items()):
             self.fault("link_" + kk, v)
         faulted = bool(fp.fired) or bool(s.core.fired)
+        if fp.extra_fired:
+            # a fault kind the C10 statement does not name (late arrival) fired: observed, never judged
+            for kk, v in fp.extra_fired.items():
+                self.obs["extra_" + kk] = self.obs.get("extra_" + kk, 0) + v
+            try:
+                s.close()
+            except Exception:  # pylint: disable=broad-except
+                pass
+            return
         success = outcome[0] == "ret" and outcome[1] is True and s.mb.status_code == 0
         label = f"op {k}: delivery of export over {op['transport']}"
         if outcome[0] in ("other_exc", "unbounded"):
